@@ -208,7 +208,7 @@ def stripentities(text, keepxmlentities=False):
     def _replace_entity(match):
         if match.group(1): # numeric entity
             ref = match.group(1)
-            if ref.startswith('x'):
+            if ref[0] in 'xX':
                 ref = int(ref[1:], 16)
             else:
                 ref = int(ref, 10)
